@@ -442,6 +442,16 @@ func runCase(c *Case, d *driver, opts runOpts) (res caseResult) {
 				if got == "" {
 					got = "-"
 				}
+				wantANSI := ""
+				if k := strings.IndexByte(want, ' '); k >= 0 {
+					want, wantANSI = want[:k], want[k+1:]
+				}
+				if act := b2i(post.OnAlt); got == want && wantANSI != "" && b == act {
+					// what ANSILine(y) of the real grid buffer renders (it reads the rune array)
+					if a := hexOrDash([]byte(im.vt.Terminal().ANSILine(y))); a != wantANSI {
+						got, want = got+" ANSILine "+a, want+" ANSILine "+wantANSI
+					}
+				}
 				if got != want {
 					addF(finding{Step: step, Kind: "diverge", Clause: "Q", Tags: *tags,
 						Detail: fmt.Sprintf("cell arrays (rune,text,width,cont,style) of row %d of buffer %d: impl[%s] model[%s]", y, b, truncate(got, 900), truncate(want, 900))})
